@@ -23,6 +23,11 @@ Faults == {
   <<"arith",  TRUE,  "return", "2 * \"s\"", TRUE>>,
   <<"arith",  TRUE,  "ev(", "3 - \"s\")", TRUE>>,
   <<"arith",  TRUE,  "x =", "7 / 0", TRUE>>,
+  \* zero divisors of every class taken from injected data (uz unsigned, iz signed, fz float)
+  <<"arith",  TRUE,  "x =", "7 / uz", TRUE>>,
+  <<"arith",  TRUE,  "return", "7 / uz", TRUE>>,
+  <<"arith",  TRUE,  "return", "7 / iz", TRUE>>,
+  <<"arith",  TRUE,  "ev(", "2.5 / fz)", TRUE>>,
   <<"cmp",    TRUE,  "x =", "1 < \"s\"", TRUE>>,
   <<"cmp",    TRUE,  "return", "\"s\" == 1", TRUE>>,
   <<"logic",  TRUE,  "x =", "1 && true", TRUE>>,
@@ -46,6 +51,7 @@ Faults == {
   <<"range",  FALSE, "forRange k := obj {", "}", FALSE>> }
 
 CondFaults == {       \* faults inside the condition of an if / else-if / for
+  <<"arith", TRUE, "7 / uz > 1">>, <<"arith", TRUE, "7 / iz > 1">>, <<"arith", TRUE, "1.5 / fz > 1">>,
   <<"arith", TRUE, "1 + \"s\" > 0">>, <<"cmp", TRUE, "1 < \"s\"">>, <<"logic", TRUE, "1 && true">>,
   <<"call", TRUE, "boom()">>, <<"condnotbool", FALSE, "1">> }
 
